@@ -18,6 +18,20 @@ event tokens (python side; the third field of `v:` is the concrete accessory mod
                   loop iteration pass between two actions.  Parts: e g c s d x X p.  The Lean model has no such event: a
                   history is compared with the model only up to its first composite event.
 
+session / browser tokens (no model event either; a history is tied to the model up to the first of them):
+  r:<id>:<api>:<own|->   a caller enters a public request of IpPairing: g get_characteristics, w put_characteristics,
+                  l list_accessories_and_characteristics, s subscribe, u unsubscribe, i identify, k list_pairings, m image,
+                  f async_populate_accessories_state(force_update=True); several of them joined by `+` overlap (one on the
+                  wire, the others queued on the request slot)
+  q:h / q:a       the accessory stops answering application requests (it keeps them) / answers what it kept, in order,
+                  and answers at once from now on
+  p:c / p:c:r     the accessory closes / resets whatever connection is current (p:<c>:r = reset of connection c)
+  n:<h,h,..> | n:- | n:*   from now on the accessory is reachable at exactly these addresses / nowhere / anywhere (the
+                  default): an unscripted TCP connect succeeds iff one of its targets is reachable
+  zA:<h,..> / zU:<h,..> / zR   mDNS: the records of the accessory are put into (zR: taken out of) the zeroconf cache and the
+                  service browser reports Added / Updated / Removed to the real IpController (ZeroconfController.
+                  _handle_service, 0.5 s resolve debounce), which owns the pairing (IpController.load_pairing)
+
 pairing-record variants (`record=` of run_scenario, table RECORDS): the stored pairing data is damaged / altered the way a
 hand-edited or half-written pairing file is, so that the secure-session setup fails with each exception class at each local
 step (or, for the benign variants, must still succeed).
@@ -25,11 +39,13 @@ step (or, for the benign variants, must still succeed).
 from __future__ import annotations
 
 import asyncio
+import json
 import random
 from unittest.mock import MagicMock
 
 from harness import simnet
 from harness.acc import Accessory, http
+from harness.refacc import tlv
 
 from aiohomekit.characteristic_cache import CharacteristicCacheMemory
 from aiohomekit.controller.ip.pairing import IpPairing
@@ -45,6 +61,15 @@ AUTH_MODES = ["err12", "err22"]
 
 
 FAMILY = {"v": "v4"}  # address family used for the scenario being run (set by run_scenario)
+
+# the accessory database served in the session / browser streams: (1, 2) identify, (1, 9) on, (1, 10) brightness
+ACCESSORY_DB = [{"aid": 1, "services": [
+    {"iid": 1, "type": "0000003E-0000-1000-8000-0026BB765291", "characteristics": [
+        {"iid": 2, "type": "00000014-0000-1000-8000-0026BB765291", "perms": ["pw"], "format": "bool"},
+        {"iid": 3, "type": "00000023-0000-1000-8000-0026BB765291", "perms": ["pr"], "format": "string", "value": "acc"}]},
+    {"iid": 8, "type": "00000043-0000-1000-8000-0026BB765291", "characteristics": [
+        {"iid": 9, "type": "00000025-0000-1000-8000-0026BB765291", "perms": ["pr", "pw", "ev"], "format": "bool", "value": False},
+        {"iid": 10, "type": "00000008-0000-1000-8000-0026BB765291", "perms": ["pr", "pw", "ev"], "format": "int", "value": 50}]}]}]
 
 
 def host(i):
@@ -205,15 +230,29 @@ class Sim:
         self.model_upto = None   # the history can be compared with the model only up to this event index (None = all of it)
 
 
+def new_tokens(events):
+    """the session / browser / environment tokens of a history (see the module docstring)"""
+    return [x for ev in events for x in ev.split("+") if x.split(":")[0] in ("r", "q", "n", "zA", "zU", "zR") or x.startswith("p:c") or x.endswith(":r") and x.startswith("p:")]
+
+
 def _run(hosts, events, seed, subs=None, family="v4", record=None):
+    if any(x.startswith("z") for ev in events for x in ev.split("+")):
+        family = "v4"  # link-local IPv6 records are not usable addresses for HomeKitService.from_service_info
     FAMILY["v"] = family
     loop = simnet.VLoop()
     asyncio.set_event_loop(loop)
     sim = Sim()
     try:
         loop.run_until_complete(_scenario(loop, sim, hosts, events, seed, record))
+    except asyncio.CancelledError:
+        # the watchdog of _scenario: a call the harness made into the library (a request, close()) did not return within 600
+        # virtual seconds - a library that blocks for ever must be reported, not hang the check
+        at = events[len(sim.lines)] if len(sim.lines) < len(events) else "the end of the history"
+        sim.problems.append(("call-never-returned", f"at {at}: the call into the library made by this event had not returned 600 s (virtual) later, t={loop.time():.3f}s"))
+        if sim.model_upto is None:
+            sim.model_upto = len(sim.lines)
     except RuntimeError as e:
-        if str(e) != "event loop does not settle" or not (record is not None or any("+" in ev or ev.startswith("g:") for ev in events)):
+        if str(e) != "event loop does not settle" or not (record is not None or any("+" in ev or ev.startswith("g:") for ev in events) or new_tokens(events)):
             raise
         # (new streams only) the library keeps the loop busy without time passing: that is the busy loop C10 excludes, not a harness error
         sim.problems.append(("busy-loop", f"after {events[len(sim.lines)] if len(sim.lines) < len(events) else '?'}: the event loop does not come to rest at t={loop.time():.3f}s (10000 iterations without quiescence)"))
@@ -256,6 +295,7 @@ async def _scenario(loop, sim, hosts, events, seed, record=None):
     # single connector AT ANY TIME, not only at quiescence: the task factory sees every connector task the library creates
     connectors = []
     overlaps = []
+    n_connectors = [0]  # connector tasks created so far
 
     def task_factory(loop_, coro, **kw):
         t = asyncio.Task(coro, loop=loop_, **kw)
@@ -264,13 +304,35 @@ async def _scenario(loop, sim, hosts, events, seed, record=None):
             if alive:
                 overlaps.append((now_units(loop), len(alive) + 1))
             connectors[:] = alive + [t]
+            n_connectors[0] += 1
         return t
     loop.set_task_factory(task_factory)
     raw_attempts = []
     orig_start = net.start_connection
+    # ---- session / browser streams (tokens r q n p:c zA zU zR): what the harness itself did and saw, the reference of the oracles
+    toks = new_tokens(events)
+    session_mode = bool(toks)
+    browser_mode = any(x.startswith("z") for x in toks)
+    reach = {"at": None}     # addresses (indices) at which the accessory is reachable; None = anywhere (the default of the older streams)
+    rq = {"hold": False, "held": [], "issued": 0}  # the accessory's answering policy for application requests
+    rx = {}                  # connection index -> bytes the accessory has received on it
+    accepted = {}            # connection index -> instant (units) at which the TCP connection was accepted
+    losses = []              # (instant, connection index, instant it was accepted) of every connection that had carried a secure session
+    starved = set()
+    zb = {"adv": None, "adv_t": None, "records": [], "calls": [], "groups": [], "sn": 1, "maxlist": len(hosts), "removed_in_window": 0, "n": 0}
+    orig_handler = net.handler
+
+    def on_write(t, data):
+        rx[t.index] = rx.get(t.index, 0) + len(data)
+        orig_handler(t, data)
+    net.handler = on_write
 
     async def start_connection(addr_infos, **kw):
         raw_attempts.append((now_units(loop), [hidx(a[3]) for a in addr_infos]))
+        if reach["at"] is not None and not net.connect_outcomes:
+            # address-aware network: the connect succeeds iff one of the targeted addresses is one the accessory has
+            pick = next((i for i, a in enumerate(addr_infos) if hidx(a[3]) in reach["at"]), None)
+            net.connect_outcomes.append("refused" if pick is None else ("ok", pick))
         sock = await orig_start(addr_infos, **kw)
         sock.host = peer_name(sock.host)
         return sock
@@ -283,19 +345,71 @@ async def _scenario(loop, sim, hosts, events, seed, record=None):
         # remember under which advertised address list the connection was made: a zeroconf update that changes the
         # list legitimately resets the exclusions ("host change clears exclusions"), so only repeats under the SAME
         # list count as "the same address again"
-        opened.append((now_units(loop), hidx(sock.host), tuple(sorted(conn_ref[0].hosts)) if conn_ref else ()))
-        return await orig_create(factory, sock=sock, **kw)
+        opened.append((now_units(loop), hidx(sock.host), tuple(sorted(conn_ref[0].hosts)) if conn_ref else (), n_connectors[0], len(net.transports)))
+        res = await orig_create(factory, sock=sock, **kw)
+        accepted[res[0].index] = now_units(loop)
+        return res
     net.create_connection = create_connection
     # stale-loss oracle: the loss of a transport that is not the current one must leave the current one alone
-    ctrl = MagicMock()
-    ctrl._char_cache = CharacteristicCacheMemory()
     waiters = {}
     done = []  # (id, outcome, units)
     close_raised = []
     problems = sim.problems
-    with net.patched():
+    import contextlib
+    zpatch = contextlib.nullcontext()
+    if session_mode:
+        # request-carrying callers need an accessory database, and an accessory that can be slow or silent
+        acc.accessories = ACCESSORY_DB
+        orig_handle = acc._handle
+
+        def answer(t, method, target, body):
+            if not t.closing and target.startswith(("/pairings", "/resource", "/characteristics?")):
+                acc.sessions[t].requests.append((method, target, body))
+                if target.startswith("/pairings"):
+                    return acc.send(t, http(tlv([(6, b"\x02"), (1, b"ctrl-1"), (3, bytes(32)), (11, b"\x01")])))
+                if target.startswith("/resource"):
+                    return acc.send(t, http(b"\xff\xd8\xff\xd9", b"image/jpeg"))
+                ids = [x.split(".") for x in target.split("id=")[1].split("&")[0].split(",")]
+                return acc.send(t, http(json.dumps({"characteristics": [{"aid": int(a_), "iid": int(i_), "value": False} for a_, i_ in ids]}).encode(), b"application/hap+json"))
+            return orig_handle(t, method, target, body)
+
+        def handle(t, method, target, body):
+            if target == "/pair-verify" or acc.responder is not None:
+                return orig_handle(t, method, target, body)
+            if rq["hold"]:
+                rq["held"].append((t, method, target, body))
+                return None
+            return answer(t, method, target, body)
+        acc._handle = handle
+    if browser_mode:
+        # the real mDNS controller owns the pairing; below it only the record cache is the harness's (filled and emptied the
+        # way the mDNS listener would) and no multicast query is ever sent
+        import socket
+        from unittest import mock
+
+        from zeroconf import DNSCache, ServiceStateChange
+        from zeroconf.asyncio import AsyncServiceInfo
+
+        import aiohomekit.zeroconf as hkz
+        from aiohomekit.controller.ip.controller import IpController
+
+        class CacheOnlyInfo(AsyncServiceInfo):
+            async def async_request(self, zc, timeout, *a, **kw):
+                return self.load_from_cache(zc)
+        azc = MagicMock()
+        azc.zeroconf.cache = DNSCache()
+        ctrl = IpController(char_cache=CharacteristicCacheMemory(), zeroconf_instance=azc)
+        zpatch = mock.patch.object(hkz, "AsyncServiceInfo", CacheOnlyInfo)
+        zname = "acc." + ctrl.hap_type
+    else:
+        ctrl = MagicMock()
+        ctrl._char_cache = CharacteristicCacheMemory()
+    with net.patched(), zpatch:
         try:
-            p = IpPairing(ctrl, mutate_record(acc.pairing_data([host(h) for h in hosts]), record, random.Random(seed ^ 0x5EED)))
+            pdata = mutate_record(acc.pairing_data([host(h) for h in hosts]), record, random.Random(seed ^ 0x5EED))
+            p = ctrl.load_pairing("acc", pdata) if browser_mode else IpPairing(ctrl, pdata)
+            if p is None:
+                raise ValueError("load_pairing returned no pairing")
         except Exception as e:  # noqa: BLE001
             if record is None:
                 raise
@@ -313,6 +427,8 @@ async def _scenario(loop, sim, hosts, events, seed, record=None):
         def lost_hook(t, exc, _orig=orig_lost):
             cur = conn.transport
             was_closing = cur.closing if cur is not None else None
+            if not t.closed and t in acc.sessions and acc.sessions[t].secure:
+                losses.append((now_units(loop), t.index, accepted.get(t.index)))
             _orig(t, exc)
             if cur is not None and cur is not t and not was_closing:
                 if cur.closing or conn.transport is not cur:
@@ -334,12 +450,22 @@ async def _scenario(loop, sim, hosts, events, seed, record=None):
             request_callers = set()  # ids of callers that went through a public request (their wait is not the bare 10 s)
             had_composite = False
 
-            async def caller(wid, own, kind):
+            maybe_asked = [False]  # a caller of this event may or may not have asked for the connection (subscribe does not once the session was marked push-less)
+
+            def api_call(api):
+                return {"g": lambda: p.get_characteristics([(1, 9)]), "w": lambda: p.put_characteristics([(1, 9, True)]),
+                        "l": p.list_accessories_and_characteristics, "s": lambda: p.subscribe([(1, 10)]), "u": lambda: p.unsubscribe([(1, 10)]),
+                        "i": p.identify, "k": p.list_pairings, "m": lambda: p.image(1, 32, 32),
+                        "f": lambda: p.async_populate_accessories_state(force_update=True)}[api]()
+
+            async def caller(wid, own, kind, api=None):
                 t0 = now_units(loop)
-                if cstate["log"] is not None:
+                if api == "s":
+                    maybe_asked[0] = True
+                elif cstate["log"] is not None and api != "u":  # unsubscribe never asks for a connection that is not there
                     cstate["log"].append("T")
                 try:
-                    coro = p._ensure_connected() if kind == "e" else p.get_characteristics([(1, 9)])
+                    coro = p._ensure_connected() if kind == "e" else p.get_characteristics([(1, 9)]) if kind == "g" else api_call(api)
                     if own is None:
                         await coro
                     else:
@@ -358,10 +484,19 @@ async def _scenario(loop, sim, hosts, events, seed, record=None):
                     out = "other:" + type(e).__name__
                 done.append((wid, out, now_units(loop), t0))
 
+            req_kind = {}  # caller id -> api of the public request it made (r: callers)
+
+            def multi_step_in_progress():
+                """callers whose public request is still under way and asks for the connection more than once in its course
+                (get / put / identify fetch the accessory database first): if a close() falls between two of its steps, the next
+                step asks for the connection after the close has returned - the request and the close are concurrent"""
+                return {w_ for w_, a_ in req_kind.items() if a_ in ("g", "w", "i") and w_ in waiters and not waiters[w_].done()}
+
             async def closer2(kind):
                 nonlocal seen_shutdown
                 if cstate["log"] is not None:
                     cstate["log"].append("C")
+                    cstate["inprog"] = cstate.get("inprog", set()) | multi_step_in_progress()
                 if kind == "X":
                     seen_shutdown = True
                 try:
@@ -387,18 +522,78 @@ async def _scenario(loop, sim, hosts, events, seed, record=None):
                     except Exception as e:  # noqa: BLE001
                         problems.append(("update-raised", f"the zeroconf update {part} (part of a composite event) raised {type(e).__name__}: {e}"))
                 elif g_[0] == "p":
+                    drop(g_)
+                else:
+                    env_action(g_)
+
+            def drop(g_):
+                """p:<c>[:r] / p:c[:r] - the accessory closes (resets) connection c / the current connection; returns the index"""
+                if g_[1] == "c":
+                    c_ = net.open[-1].index if net.open else 9999  # the connection the accessory accepted last and still has
+                else:
                     c_ = int(g_[1])
-                    if c_ < len(net.transports) and net.transports[c_] in net.open:
+                if c_ < len(net.transports) and net.transports[c_] in net.open:
+                    if len(g_) > 2 and g_[2] == "r":
+                        net.transports[c_].peer_reset()
+                    else:
                         net.transports[c_].peer_close()
+                return c_
+
+            def env_action(g_):
+                """q (answering policy of the accessory), n (where it is reachable), zA / zU / zR (mDNS records + browser callback)"""
+                if g_[0] == "q":
+                    rq["hold"] = g_[1] == "h"
+                    if not rq["hold"]:
+                        held, rq["held"] = rq["held"], []
+                        for t_, m_, tg_, b_ in held:
+                            if not t_.closing and not t_.closed:
+                                answer(t_, m_, tg_, b_)
+                elif g_[0] == "n":
+                    reach["at"] = None if g_[1] == "*" else set() if g_[1] == "-" else {int(x) for x in g_[1].split(",")}
+                else:
+                    cache = azc.zeroconf.cache
+                    if zb["records"]:
+                        cache.async_remove_records(zb["records"])
+                        zb["records"] = []
+                    zb["n"] += 1
+                    if g_[0] == "zR":
+                        if zb["calls"] and now_units(loop) - zb["calls"][-1] < UNIT // 2:
+                            zb["removed_in_window"] += 1
+                        zb["adv"], zb["groups"] = None, []
+                        change = ServiceStateChange.Removed
+                    else:
+                        hs = [int(x) for x in g_[1].split(",")]
+                        zb["sn"] += 1
+                        info = AsyncServiceInfo(ctrl.hap_type, zname, addresses=[socket.inet_aton(host(h)) for h in hs], port=80, server="acc.local.",
+                                                properties={"id": acc.ident.acc_id.decode(), "c#": "0", "s#": str(zb["sn"]), "sf": "0", "ff": "0", "ci": "5", "md": "m", "pv": "1.1"})
+                        zb["records"] = [*info.dns_addresses(), info.dns_pointer(), info.dns_service(), info.dns_text()]
+                        cache.async_add_records(zb["records"])
+                        if zb["adv"] != set(hs):
+                            zb["adv"], zb["adv_t"], zb["groups"] = set(hs), now_units(loop), []
+                        zb["calls"].append(now_units(loop))
+                        zb["maxlist"] = max(zb["maxlist"], len(hs))
+                        change = ServiceStateChange.Added if g_[0] == "zA" else ServiceStateChange.Updated
+                    try:
+                        ctrl._handle_service(azc.zeroconf, ctrl.hap_type, zname, change)
+                    except Exception as e:  # noqa: BLE001
+                        problems.append(("update-raised", f"the service browser callback {change.name} for {':'.join(g_)} raised {type(e).__name__}: {e}"))
+
+            main_task = asyncio.current_task()
+            watchdog = [None]
 
             for ei, ev in enumerate(events):
+                if watchdog[0] is not None:
+                    watchdog[0].cancel()
+                watchdog[0] = loop.call_later((int(ev.split(":")[1]) / UNIT if ev.startswith("a:") else 0) + 600, main_task.cancel)
                 hosts_before = list(conn.hosts)
+                t_ev0 = now_units(loop)
+                inprog_at_start = multi_step_in_progress()
                 conn_before = conn.transport if p.is_connected else None  # the healthy session at the start of this event
                 f = ev.split(":")
                 k = f[0]
                 mtok = model_token(ev)
                 comp = None
-                if "+" in ev or k == "g":
+                if "+" in ev or k in ("g", "r"):
                     # no model event corresponds to this: the model is consulted on the history before it only
                     if sim.model_upto is None:
                         sim.model_upto = ei
@@ -407,9 +602,10 @@ async def _scenario(loop, sim, hosts, events, seed, record=None):
                     comp = {"parts": ev.split("+"), "log": []}
                     cstate["log"] = comp["log"]
                     cstate["att"] = None
+                    cstate["inprog"] = set()
                     for part in comp["parts"]:
                         g_ = part.split(":")
-                        if g_[0] not in (".", "e", "g", "x", "X", "c", "s", "d", "p"):
+                        if g_[0] not in (".", "e", "g", "x", "X", "c", "s", "d", "p", "r", "q", "n", "zA", "zU", "zR"):
                             raise ValueError("bad part of a composite event: " + part)
                         if part == ".":
                             await asyncio.sleep(0)  # one bare loop iteration: whatever was issued so far takes its first step
@@ -418,6 +614,12 @@ async def _scenario(loop, sim, hosts, events, seed, record=None):
                             if g_[0] == "g":
                                 request_callers.add(int(g_[1]))
                             waiters[int(g_[1])] = asyncio.ensure_future(caller(int(g_[1]), own_, g_[0]))
+                        elif g_[0] == "r":
+                            own_ = None if (len(g_) < 4 or g_[3] == "-") else int(g_[3]) / UNIT
+                            request_callers.add(int(g_[1]))
+                            rq["issued"] += 1
+                            req_kind[int(g_[1])] = g_[2]
+                            waiters[int(g_[1])] = asyncio.ensure_future(caller(int(g_[1]), own_, "r", g_[2]))
                         elif g_[0] in ("x", "X"):
                             asyncio.ensure_future(closer2(g_[0]))
                         else:
@@ -490,9 +692,11 @@ async def _scenario(loop, sim, hosts, events, seed, record=None):
                         seen_shutdown = True
                     await asyncio.ensure_future(closer())
                 elif k == "p":
-                    c = int(f[1])
-                    if c < len(net.transports) and net.transports[c] in net.open:
-                        net.transports[c].peer_close()
+                    mtok = f"p:{drop(f)}"
+                elif k in ("q", "n", "zA", "zU", "zR"):
+                    if sim.model_upto is None:
+                        sim.model_upto = ei
+                    env_action(f)
                 elif k == "t":
                     net.connect_outcomes.append({"r": "refused", "t": "timeout"}.get(f[1]) or ("ok", int(f[2])))
                 elif k == "v":
@@ -542,7 +746,7 @@ async def _scenario(loop, sim, hosts, events, seed, record=None):
                     # C11: a connection whose secure-session setup failed is closed by the controller - seen from the accessory: at
                     # quiescence an open connection either carries an established session or the accessory still owes an answer on it
                     s_ = acc.sessions.get(t_)
-                    if s_ is not None and not s_.secure and not (s_.mode == "hang" and s_.step >= 1):
+                    if s_ is not None and not s_.secure and not (s_.mode == "hang" and s_.step >= 1) and not any(h_[0] is t_ for h_ in rq["held"]):
                         problems.append(("setup-failed-left-open", f"after {ev}: connection {t_.index} is still open although no secure session came up on it and the accessory owes no answer "
                                          f"(pair-verify requests it received: {s_.step}, its behaviour: {s_.mode})"))
                 if live > 1 or net.max_in_flight > 1:
@@ -589,6 +793,11 @@ async def _scenario(loop, sim, hosts, events, seed, record=None):
                                 z_before = True
                         if z_before and state is True:
                             state = None
+                        # (request-carrying callers) a multi-step request that was under way when close() was called and did not end
+                        # with a disconnection error at this instant may have asked for the connection again after the close
+                        ended_by_close = {i_ for i_, o_, _, _ in fin if o_ in ("disc", "canc")}
+                        if state is True and cstate["inprog"] and (cstate["inprog"] - ended_by_close or log.count("C") > 1):
+                            state = None
                         new_after = raw_attempts[cstate["att"]:] if cstate["att"] is not None else []
                         if state is None and new_after:
                             state = False  # attempts after the close had returned: the concurrent request won
@@ -600,10 +809,22 @@ async def _scenario(loop, sim, hosts, events, seed, record=None):
                         quiet = False
                 elif k in ("x", "X"):
                     quiet = True
+                    if k == "x" and inprog_at_start - {i_ for i_, o_, _, _ in fin if o_ in ("disc", "canc")}:
+                        quiet = None  # as above, for a close issued as an event of its own while such a request is under way
                 elif k in ("e", "s", "d") and not seen_shutdown:
                     quiet = False
                 elif quiet is None and new:
                     quiet = False  # the request that was concurrent with the close won: the pairing is open
+                t_now = now_units(loop)
+                if session_mode:
+                    if any(x.startswith("d:") for x in ev.split("+")):
+                        zb["adv"], zb["groups"] = None, []  # the pairing was told another list directly: that is the advertisement now
+                    # an announcement made through the browser reaches the pairing after the resolve debounce: from then on the
+                    # pairing is open again, whatever was closed before - within a second of the callback either order is correct
+                    announced = zb["adv"] is not None and bool(zb["calls"]) and t_now - zb["calls"][-1] <= UNIT
+                    if quiet is True and not seen_shutdown and (maybe_asked[0] or announced):
+                        quiet = None
+                    maybe_asked[0] = False
                 if k in ("x", "X") and op:
                     problems.append(("open-after-close", f"after {ev}: connection(s) {op} still open"))
                 elif comp_closed and quiet is True and (op or new_after):
@@ -644,6 +865,17 @@ async def _scenario(loop, sim, hosts, events, seed, record=None):
                     problems.append(("retries-ended", f"after {ev}: connector finished ({cs}), pairing not connected, close() not called - nothing will retry"))
                 if cs.startswith("exc:"):
                     problems.append(("retries-ended", f"after {ev}: connector died with {cs[4:]}"))
+                # C10: a failed or lost connection is followed by further attempts - an attempt that got its TCP connection must go on
+                # to the pair-verify request (or give the connection up): a connection on which the accessory has not received a
+                # single byte 31 s after accepting it (no request of this library waits longer than 30 s for anything) while the
+                # pairing is not connected means the connector has come to a halt without finishing or failing
+                for t_ in net.open:
+                    t_acc = accepted.get(t_.index)
+                    if t_acc is not None and not rx.get(t_.index) and t_now - t_acc > 31 * UNIT and t_.index not in starved and not p.is_connected:
+                        starved.add(t_.index)
+                        problems.append(("retries-ended", f"after {ev}: connection {t_.index} was accepted by the accessory at t={t_acc / UNIT:.3f}s, {(t_now - t_acc) / UNIT:.1f} s ago, and is still open, but the accessory has not "
+                                         f"received a single request on it (no pair-verify); connector state: {cs}, last connection attempt at t={(raw_attempts[-1][0] / UNIT) if raw_attempts else -1:.3f}s - the connector has come to a halt: "
+                                         f"no authentication failure, no close, yet nothing retries any more"))
                 # C10: no busy loop - attempts at one instant are bounded by the address list (the longer of the lists in
                 # force before and after this event: a zeroconf update may have replaced it while attempts were under way)
                 H = max(len(conn.hosts), len(hosts_before), 1)
@@ -659,6 +891,11 @@ async def _scenario(loop, sim, hosts, events, seed, record=None):
                 ts = sorted(by_t)
                 if k == "a":
                     for t1, t2 in zip(ts, ts[1:]):
+                        if session_mode and (any(tcb <= t2 <= tcb + UNIT for tcb in zb["calls"]) or any(ta == t1 and t1 < tl <= t2 for tl, _, ta in losses)):
+                            # (new streams) there WAS a trigger in between: a browser announcement came out of its debounce (it hastens
+                            # the reconnect), or the session that the attempt at t1 had established was lost later on (request time-out,
+                            # caller's own time-out with its request on the wire): the first attempt after a loss is not a back-off retry
+                            continue
                         if t2 - t1 < 6144:
                             problems.append(("backoff-too-short", f"after {ev}: attempts at {t1 / UNIT:.4f}s and {t2 / UNIT:.4f}s with no trigger in between"))
                         if t2 - t1 > 90 * UNIT:
@@ -671,13 +908,24 @@ async def _scenario(loop, sim, hosts, events, seed, record=None):
                 seen_at = {}
                 if comp is not None and (comp_closed or comp["log"].count("T") + comp["log"].count("Z") > 1):
                     new_open = []  # a close and a new request, or two requests (the second cuts the back-off short), in one event: two legitimate rounds
-                for t, h, adv in new_open:
+                prev_conn = {}
+                for t, h, adv, ncon, tidx in new_open:
+                    pc = prev_conn.get((t, adv, h))
+                    prev_conn[(t, adv, h)] = (ncon, tidx)
+                    if session_mode and pc is not None and pc[0] != ncon and pc[1] < len(acc.order) and acc.order[pc[1]].secure:
+                        # (request-carrying callers) not a retry: the earlier connection carried a secure session that its connector
+                        # had handed over (it finished; this attempt belongs to a NEW connector task) and that was lost at the very
+                        # instant it came up - a waiting caller's request went out on it and the accessory dropped it
+                        continue
                     if h in seen_at.get((t, adv), ()):
                         problems.append(("immediate-retry-same-address", f"after {ev}: address {h} was connected to twice at the same instant t={t / UNIT:.3f}s under the same advertised list (no back-off in between)"))
                     seen_at.setdefault((t, adv), set()).add(h)
                 # C10: no advertised address is excluded forever
                 if k in ("x", "X", "d") or comp_closed or (comp is not None and any(x.startswith("d:") for x in comp["parts"])):
                     groups = []
+                    zb["groups"] = []
+                if session_mode and any(t_ev0 <= tcb + UNIT and tcb <= t_now for tcb in zb["calls"]):
+                    groups = []  # a browser announcement was (or may have been) handed to the pairing during this event: like `d`
                 for t, hs in new:
                     if groups and groups[-1][0] == t:
                         groups[-1][1].update(hs)
@@ -696,10 +944,39 @@ async def _scenario(loop, sim, hosts, events, seed, record=None):
                         missing = sorted(set(adv_idx) - seen_h)
                         if missing:
                             problems.append(("address-excluded", f"after {ev}: advertised address(es) {missing} not tried in the last {Ha + 1} rounds of attempts ({[sorted(g[1]) for g in groups[-(Ha + 1):]]})"))
+                if browser_mode:
+                    # the reference is what the harness itself announced through the service browser (records in the cache + Added /
+                    # Updated callback, not withdrawn since): every address of that list is tried within (longest list + 1) rounds of
+                    # attempts, counting only rounds begun more than a second after the announcement (resolve debounce 0.5 s)
+                    if zb["adv"] is None or cs != "live":
+                        zb["groups"] = []
+                    else:
+                        for t, hs in new:
+                            if t <= zb["adv_t"] + UNIT:
+                                continue
+                            if zb["groups"] and zb["groups"][-1][0] == t:
+                                zb["groups"][-1][1].update(hs)
+                            else:
+                                zb["groups"].append((t, set(hs)))
+                        Hz = zb["maxlist"] + 1
+                        if len(zb["groups"]) >= Hz:
+                            missing = sorted(zb["adv"] - set().union(*(g[1] for g in zb["groups"][-Hz:])))
+                            if missing:
+                                problems.append(("address-excluded", f"after {ev}: address(es) {missing} have been advertised through the service browser since t={zb['adv_t'] / UNIT:.3f}s (announced list {sorted(zb['adv'])}, "
+                                                 f"records still in the cache) but were not tried in the last {Hz} rounds of attempts ({[(round(g[0] / UNIT, 3), sorted(g[1])) for g in zb['groups'][-Hz:]]})"))
+                                zb["groups"] = []
                 if cs == "live" and last_attempt is not None and now_units(loop) - last_attempt > 90 * UNIT:
                     problems.append(("backoff-too-long", f"after {ev}: connector running but no attempt for {((now_units(loop) - last_attempt) / UNIT):.1f}s"))
+            if watchdog[0] is not None:
+                watchdog[0].cancel()
+            watchdog[0] = loop.call_later(600, main_task.cancel)  # ... the cleanup below must not hang either
             sim.attempts = raw_attempts
             sim.stats = {"connections": len(net.transports), "attempts": len(raw_attempts), "virtual_seconds": now_units(loop) / UNIT}
+            if session_mode:
+                sim.stats.update({"requests": rq["issued"], "secure_sessions_lost": len(losses), "browser_callbacks": zb["n"], "removed_in_debounce": zb["removed_in_window"]})
+                if browser_mode:
+                    for h_ in list(getattr(ctrl, "_resolve_later", {}).values()):
+                        h_.cancel()
             # leave nothing behind
             for t in waiters.values():
                 t.cancel()
@@ -707,6 +984,7 @@ async def _scenario(loop, sim, hosts, events, seed, record=None):
                 await p.shutdown()
             except BaseException:  # noqa: BLE001
                 pass
+            watchdog[0].cancel()
             await settle(loop)
         finally:
             simnet.FakeTransport._lost = orig_lost
@@ -973,4 +1251,197 @@ def gen_record_histories(rng, n, names=None):
         end = rng.choice(["x", "x", "X"])
         evs += [end, f"a:{U}", f"a:{12 * U}"]
         out.append((hosts, evs, rec))
+    return out
+
+
+# --------------------------------------------------------------------------- request-carrying callers (sessions with application requests in flight)
+
+REQ_APIS = ["g", "g", "g", "w", "w", "l", "s", "u", "i", "k", "m", "f"]
+# what the NEXT connection attempts meet when the session is lost (scripts are consumed in order, then the defaults apply)
+REQ_NEXT = [[], ["t:r"], ["t:r", "t:r", "t:r"], ["t:t"], ["v:fa:reset1"], ["v:ha:hang"], ["v:wr:wrongid"], ["t:r", "v:ol:oksubdrop"]]
+REQ_LOSSES = ["close", "reset", "timeout", "x", "cancel", "own", "zeroconf", "none"]
+
+
+def _burst(rng, n, wid0, spaced=False, own_first=False):
+    """n overlapping public requests (parts of one composite event): the first one gets the request slot and goes on the wire,
+    the others queue behind it"""
+    parts = []
+    for i in range(n):
+        own = str(3 * U + 1) if (own_first and i == 0) else "-" if rng.random() < 0.9 else str(rng.choice([3 * U + 1, 7 * U + 1]))
+        parts.append(f"r:{wid0 + i}:{rng.choice(REQ_APIS)}:{own}")
+        if spaced and i < n - 1:
+            parts += ["."] * rng.randrange(1, 4)
+    return parts
+
+
+def _req_tail(rng, hold):
+    tail = ["a:2", f"a:{12 * U}"] + (["q:a"] if hold and rng.random() < 0.5 else []) + [f"a:{40 * U}", f"a:{100 * U}"]
+    r = rng.random()
+    if r < 0.35:
+        tail += [f"r:70:{rng.choice(REQ_APIS)}:-", f"a:{12 * U}"]
+    elif r < 0.5:
+        tail += ["e:71:-", f"a:{12 * U}"]
+    if rng.random() < 0.3:
+        tail += [rng.choice(["x", "x", "X"]), f"a:{12 * U}", f"a:{70 * U}"]
+    return tail
+
+
+def gen_request_histories(rng, n_random=200, grid_sample=None):
+    """(A) EVERY combination of {1, 2, 3 overlapping public requests} x {accessory answers at once, accessory keeps the answers}
+    x {what the next attempts meet: connects at once, refused once / three times, TCP time-out, reset in pair-verify, pair-verify
+    unanswered, wrong pairing id, refused then dropped at the first request} x {how the session ends: accessory closes, accessory
+    resets, the request times out after 30 s, close(), the caller on the wire is cancelled, its own time-out expires, a zeroconf
+    update arrives, it does not end}, the end of the session issued in the same loop iteration as the requests, a few bare
+    iterations later, as the next event or after a pause; (B) random histories over the same alphabet mixed with the
+    supervisor's events.  Each followed by 150 s of time passing, sometimes new callers, sometimes a close."""
+    out = []
+    for n in (1, 2, 3):
+        for hold in (False, True):
+            for nxt in REQ_NEXT:
+                for loss in REQ_LOSSES:
+                    H = rng.choice([1, 1, 2, 3])
+                    evs = [rng.choice(["e:1:-", "e:1:-", "s", "r:1:l:-", "r:1:g:-"])] + list(nxt)
+                    burst = _burst(rng, n, 10, spaced=rng.random() < 0.3, own_first=(loss == "own"))
+                    end = {"close": ["p:c"], "reset": ["p:c:r"], "x": ["x"], "cancel": ["c:10"], "zeroconf": ["s"]}.get(loss, [])
+                    if hold:
+                        evs.append("q:h")
+                    how = rng.choice(["same", "spaced", "next", "later"] if hold else ["same", "same", "spaced"])
+                    if end and how in ("same", "spaced"):
+                        evs.append("+".join(burst + ["."] * (0 if how == "same" else rng.randrange(1, 5)) + end))
+                    else:
+                        evs.append("+".join(burst))
+                        if how == "later":
+                            evs.append("a:%d" % rng.choice([2, U // 2, 5 * U]))
+                        evs += end
+                    if loss == "timeout":
+                        evs.append(f"a:{31 * U}")
+                    elif loss == "own":
+                        evs.append(f"a:{4 * U}")
+                    elif loss == "x":
+                        evs += ["a:2", rng.choice(["e:60:-", "r:60:g:-", "s"])]
+                    out.append((list(range(1, H + 1)), evs + _req_tail(rng, hold), "grid"))
+    if grid_sample is not None and len(out) > grid_sample:
+        out = rng.sample(out, grid_sample)
+    for _ in range(n_random):
+        H = rng.randrange(1, 4)
+        evs = []
+        for _ in range(rng.randrange(0, 4)):
+            r = rng.random()
+            evs.append("t:r" if r < 0.3 else "t:t" if r < 0.4 else ver_token(rng.choice(["ok", "ok", "ok", "wr", "fa", "ha", "ol"]), rng))
+        wid = 0
+        hold = False
+        for _ in range(rng.randrange(4, 16)):
+            r = rng.random()
+            if r < 0.3:
+                n = rng.choice([1, 2, 2, 3])
+                parts = _burst(rng, n, wid + 1, spaced=rng.random() < 0.3)
+                wid += n
+                if rng.random() < 0.35:
+                    parts += ["."] * rng.choice([0, 0, 1, 2]) + [rng.choice(["p:c", "p:c:r", "x", f"c:{wid}", f"c:{wid - n + 1}", "s", "e:%d:-" % (wid + 40)])]
+                evs.append("+".join(parts))
+            elif r < 0.5:
+                evs.append("a:%d" % rng.choice([2, U // 2, 3 * U // 4, U, 5 * U, 12 * U, 31 * U, 31 * U, 70 * U]))
+            elif r < 0.6:
+                hold = not hold
+                evs.append("q:h" if hold else "q:a")
+            elif r < 0.72:
+                evs.append(rng.choice(["p:c", "p:c", "p:c:r"]))
+            elif r < 0.8:
+                evs.append("t:r" if rng.random() < 0.6 else rng.choice(["t:t", ver_token(rng.choice(VER_CLASSES), rng)]))
+            elif r < 0.85 and wid:
+                evs.append("c:%d" % rng.randrange(1, wid + 1))
+            elif r < 0.9:
+                wid += 1
+                evs.append(f"e:{wid}:" + rng.choice(["-", "-", str(3 * U + 1)]))
+            elif r < 0.94:
+                evs.append(rng.choice(["s", "s", "d:" + ",".join(map(str, rng.sample([1, 2, 3, 4], rng.randrange(1, 4))))]))
+            elif r < 0.98:
+                evs.append("x")
+            else:
+                evs.append(rng.choice(["X", "j", "h"]))
+        out.append((list(range(1, H + 1)), evs + _req_tail(rng, hold), "random"))
+    return out
+
+
+# --------------------------------------------------------------------------- zeroconf through the service browser of the real controller
+
+def _hl(hs):
+    return ",".join(str(h) for h in hs)
+
+
+def gen_browser_histories(rng, n_random=200, grid_sample=None):
+    """the accessory's mDNS life as the service browser reports it to the real IpController, on a network where a TCP connect
+    succeeds only to an address the accessory really has.  (A) EVERY combination of {re-announcement reported as Added, Updated}
+    x {goodbye (Removed) 0.1 s / 0.4 s after it - inside the 0.5 s resolve debounce - , 0.6 s after it, no goodbye} x {the session
+    was up and is dropped, the accessory was never reached} x {away for 0.2 s, 5 s, 100 s} x {back on the same addresses, on
+    another address, with an address added (only the new one works), partly moved} x {reported as Added, Updated};
+    (B) random lives: announcements, goodbyes, flapping within and across the debounce window, address changes with and without
+    a goodbye, power cuts, callers, requests, closes.  Each followed by more than 400 s of retries."""
+    out = []
+    for first in ("zA", "zU"):
+        for gap in (U // 10, 2 * U // 5, 3 * U // 5, None):
+            for up in (True, False):
+                for away in (U // 5, 5 * U, 100 * U):
+                    for back in ("same", "other", "added", "partly"):
+                        for backcb in ("zA", "zU"):
+                            H = rng.choice([1, 1, 2])
+                            hosts = list(range(1, H + 1))
+                            evs = [f"n:{_hl(hosts)}" if up else "n:-", f"zA:{_hl(hosts)}", f"a:{U}", "a:%d" % rng.choice([3 * U, 20 * U])]
+                            evs.append(f"{first}:{_hl(hosts)}")
+                            if gap is not None:
+                                evs += [f"a:{gap}", "zR"]
+                            evs += ["n:-"] + ([rng.choice(["p:c", "p:c:r"])] if up else []) + [f"a:{away}"]
+                            new, at = {"same": (hosts, hosts), "other": ([4], [4]), "added": (hosts + [4], [4]), "partly": ([hosts[0], 4], [4])}[back]
+                            evs += [f"n:{_hl(at)}", f"{backcb}:{_hl(new)}"]
+                            evs += [f"a:{U}", f"a:{12 * U}"] + ([f"zU:{_hl(new)}"] if rng.random() < 0.4 else []) + [f"a:{100 * U}", f"a:{300 * U}"]
+                            if rng.random() < 0.25:
+                                evs += [rng.choice(["x", "X"]), f"zU:{_hl(new)}", f"a:{12 * U}"]
+                            out.append((hosts, evs, "grid"))
+    if grid_sample is not None and len(out) > grid_sample:
+        out = rng.sample(out, grid_sample)
+    for _ in range(n_random):
+        H = rng.randrange(1, 4)
+        hosts = list(range(1, H + 1))
+        cur = list(hosts)   # the addresses the accessory has at the moment
+        on = rng.random() < 0.8
+        evs = [f"n:{_hl(cur)}" if on else "n:-"]
+        if rng.random() < 0.8:
+            evs += [f"zA:{_hl(cur)}", f"a:{U}"]
+        wid = 0
+        for _ in range(rng.randrange(4, 14)):
+            r = rng.random()
+            if r < 0.22:
+                evs.append("a:%d" % rng.choice([U // 10, U // 5, 2 * U // 5, 3 * U // 5, U, 3 * U, 12 * U, 40 * U, 130 * U]))
+            elif r < 0.36:
+                evs.append(rng.choice(["zU", "zU", "zA"]) + ":" + _hl(cur))
+            elif r < 0.48:
+                evs.append("zR")
+                if rng.random() < 0.6:
+                    on = False
+                    evs += ["n:-", rng.choice(["p:c", "p:c:r"])]
+            elif r < 0.62:
+                # the accessory gets other addresses (new lease, another interface), with or without announcing it at once
+                cur = sorted(rng.sample([1, 2, 3, 4, 5], rng.randrange(1, 4)))
+                on = True
+                evs += [f"n:{_hl(cur)}"] + ([rng.choice(["p:c", "p:c:r"])] if rng.random() < 0.7 else [])
+                if rng.random() < 0.85:
+                    evs.append(rng.choice(["zA", "zU"]) + ":" + _hl(cur if rng.random() < 0.8 else sorted(set(cur) | {rng.choice([1, 2, 3])})))
+            elif r < 0.7:
+                on = not on
+                evs += [f"n:{_hl(cur)}"] if on else ["n:-", "p:c"]
+            elif r < 0.78:
+                wid += 1
+                evs.append(rng.choice([f"e:{wid}:-", f"r:{wid}:g:-", f"r:{wid}:w:-", f"e:{wid}:{3 * U + 1}"]))
+            elif r < 0.84:
+                evs.append(rng.choice(["p:c", "p:c:r"]))
+            elif r < 0.9:
+                evs.append("x")
+            elif r < 0.93:
+                evs.append("s")
+            elif r < 0.95:
+                evs.append("X")
+            else:
+                evs.append(rng.choice(["zR", "zU:" + _hl(cur)]) + "+" + rng.choice(["zA:" + _hl(cur), "zU:" + _hl(cur), "zR", f"e:{wid + 30}:-", "x"]))
+        evs += [f"a:{U}", f"a:{12 * U}", f"a:{100 * U}", f"a:{300 * U}"]
+        out.append((hosts, evs, "random"))
     return out
